@@ -338,8 +338,17 @@ def check_body_read(P, R):
             if any(isinstance(x, ast.Name) and x.id in ('_iter_body', '_iter_chunked') for x in cl_) or dotted(c.func) in ('_iter_body', '_iter_chunked'):
                 starts.append(c)
     if starts:
-        R.ob('C04.d', f, starts[1] if len(starts) > 1 else starts[0], len(starts) == 1, text=f'the part reader is started once ({len(starts)} call(s))', detail='' if len(starts) == 1 else
-             f'`{short(starts[1])}` starts a second reader on the same stream: it counts the declared length from zero again, so after the bytes already consumed another '
+        # (one call per branch of an if / else is one start: what counts is a start that can follow another, or itself)
+        sn_ = [g.node_of_stmt(c)[0] for c in starts]
+        def _again(n_):
+            # the node can be executed a second time (the iterable of a `for` is evaluated once although its node heads the loop)
+            if n_.kind == 'for':
+                return bool(T.loops_of(n_.ast))
+            return any(m is n_ for s_ in [x for (x, lab) in n_.succ if lab != 'exc'] for m in g.reachable_from([s_]))
+        second = [starts[j] for i in range(len(starts)) for j in range(len(starts)) if (i != j and g.can_reach(sn_[i], sn_[j])) or (i == j and _again(sn_[i]))]
+        once = not second
+        R.ob('C04.d', f, second[0] if second else starts[0], once, text=f'the part reader is started once ({len(starts)} call site(s), none follows another)', detail='' if once else
+             f'`{short(second[0])}` starts a second reader on the same stream: it counts the declared length from zero again, so after the bytes already consumed another '
              f'Content-Length bytes are pulled - the stream is read beyond the body (the next request on the connection is eaten)',
              why='the stream is never read beyond Content-Length', key_extra='reader-once')
         for c in starts:
